@@ -286,6 +286,19 @@ func c07MalformedFiles(dir string) []string {
 		sort.Strings(ks)
 		return ks
 	}
+	// irregular CSV header lines over regular data rows
+	for k, hdr := range map[string]string{"dupfirst": "a,a,c", "duplast": "a,c,c", "dupall": "a,a,a", "emptyname": "a,,c", "short": "a,b", "long": "a,b,c,d",
+		"spaces": "a, b ,c", "quoted": "\"a\",\"b\",\"c\"", "blank": "", "numeric": "1,2,3"} {
+		var b strings.Builder
+		b.WriteString(hdr + "\n")
+		for i := 0; i < 3; i++ {
+			fmt.Fprintf(&b, "%d,s%d,%d.5\n", i, i%3, i)
+		}
+		p := filepath.Join(dir, fmt.Sprintf("hdr_%s.csv", k))
+		os.WriteFile(p, []byte(b.String()), 0o644)
+		out = append(out, p)
+	}
+	sort.Strings(out)
 	for _, pos := range []int{0, 50, 101} {
 		for _, k := range names(csvBad) {
 			var b strings.Builder
@@ -394,8 +407,33 @@ func init() {
 				cases = append(cases, cs{"malformed-input-row", fmt.Sprintf(q, mf), "json"})
 			}
 		}
+		// (f) stacked triggered GROUP BYs keyed by the event-time field over a watermarked source with repeated timestamps:
+		// the inner one retracts and re-emits (and empties groups of the outer one), every pair of trigger clauses
+		{
+			ev := filepath.Join(dir, "ev.json")
+			os.WriteFile(ev, []byte(`{"t":"2021-01-01T00:00:01Z","k":1}
+{"t":"2021-01-01T00:00:01Z","k":2}
+{"t":"2021-01-01T00:00:03Z","k":1}
+{"t":"2021-01-01T00:00:02Z","k":1}
+{"t":"2021-01-01T00:00:03Z","k":2}
+{"t":"2021-01-01T00:00:09Z","k":1}
+`), 0o644)
+			trigs := []string{"TRIGGER COUNTING 1", "TRIGGER COUNTING 2", "TRIGGER ON WATERMARK", "TRIGGER ON END OF STREAM", "TRIGGER COUNTING 1, ON WATERMARK", ""}
+			src := fmt.Sprintf("max_diff_watermark(source=>TABLE(%s), max_diff=>INTERVAL 1 SECOND, time_field=>DESCRIPTOR(t)) x", ev)
+			for _, in := range trigs {
+				for _, out := range trigs {
+					for _, shape := range []string{
+						"SELECT y.t, COUNT(*) AS n FROM (SELECT x.t, COUNT(*) AS c FROM %s GROUP BY x.t %s) y GROUP BY y.t %s",
+						"SELECT y.t, y.c, COUNT(*) AS n FROM (SELECT x.t, COUNT(*) AS c FROM %s GROUP BY x.t %s) y GROUP BY y.t, y.c %s",
+						"SELECT y.t, SUM(y.k) AS n FROM (SELECT x.t, x.k, COUNT(*) AS c FROM %s GROUP BY x.t, x.k %s) y GROUP BY y.t %s",
+					} {
+						cases = append(cases, cs{"stacked-triggered-group-by", fmt.Sprintf(shape, src, in, out), "json"})
+					}
+				}
+			}
+		}
 		r.Bound = map[string]interface{}{"seeds": len(seeds), "token_alphabet": len(c07Tokens), "cases": len(cases)}
-		r.Rule = "(a) the complete one-token edit neighbourhood (delete / replace / insert over a 45-token alphabet) of 8 (16) seed queries covering every grammar production used elsewhere (thorough: a two-edit neighbourhood too); (b) every function descriptor x all tuples of edge-value literals of its argument types rendered as SQL; (c) ~150 handwritten edge queries (TVF arguments, aggregates, join/WHERE oddities, LIMIT values, indexes, casts, files whose later rows disagree with the previewed schema, malformed statements); (d) every output mode x every value kind; (e) 102-row CSV and JSON files with one irregular row (12 CSV and 14 JSON kinds: short/long/empty rows, stray quotes, multi-line cells, NUL, invalid UTF-8, type flips, truncated or non-object JSON, duplicate keys, huge numbers) at row 0, 50 or 101 x 6 queries reading all/first/last/no columns; each run through the real root command in-process; outcome must be output or a reported error, never a Go panic (main goroutine: recovered and recorded; other goroutine: worker crash); violations are confirmed on the real binary; non-trivial = case that gets past parsing and typechecking"
+		r.Rule = "(a) the complete one-token edit neighbourhood (delete / replace / insert over a 45-token alphabet) of 8 (16) seed queries covering every grammar production used elsewhere (thorough: a two-edit neighbourhood too); (b) every function descriptor x all tuples of edge-value literals of its argument types rendered as SQL; (c) ~150 handwritten edge queries (TVF arguments, aggregates, join/WHERE oddities, LIMIT values, indexes, casts, files whose later rows disagree with the previewed schema, malformed statements); (d) every output mode x every value kind; (e) 102-row CSV and JSON files with one irregular row (12 CSV and 14 JSON kinds: short/long/empty rows, stray quotes, multi-line cells, NUL, invalid UTF-8, type flips, truncated or non-object JSON, duplicate keys, huge numbers) at row 0, 50 or 101, and CSV files with one of 10 irregular header lines (repeated, empty, missing, surplus, quoted, numeric names) x 6 queries reading all/first/last/no columns; (f) stacked GROUP BYs keyed by the event-time field over a watermarked source with repeated timestamps, every ordered pair of 6 trigger clauses x 3 shapes; each run through the real root command in-process; outcome must be output or a reported error, never a Go panic (main goroutine: recovered and recorded; other goroutine: worker crash); violations are confirmed on the real binary; non-trivial = case that gets past parsing and typechecking"
 		r.Assume("huge repeat counts / ranges are excluded (memory, not panic)", "well-formed poll() queries are excluded: poll is an endless stream, not terminating is its specified behaviour", "a violation is identified by the top octosql stack frame of the panic and its message with numbers masked")
 		enum.Parallel(len(cases), func(i int) {
 			if r.TimeUp() {
